@@ -33,7 +33,8 @@ Section Create.
        fill_value = _zero_of_dtype(x.dtype) if x.shape else x
      i.e. fill 0 and the positions that differ from 0 stored — except for a 0-d input, whose value becomes
      the fill of an array that stores nothing;
-     asarray(sparse array) = obj.asformat(format): the same array *)
+     asarray(sparse array) = obj.asformat(format).astype(dtype, copy): the same array (the dtype is an opaque
+     tag here; that the result carries the requested dtype and class is compared with NumPy by the campaign) *)
   Definition asarray_dense (veqb : V -> V -> bool) (d : dense V) : coo V :=
     match d_shape d, d_flat d with
     | [], v :: _ => mkCOO [] [] [] v
